@@ -18,9 +18,12 @@ int memcmp(const void*, const void*, size_t);
  * values, in call order, out of a CBMC trace and replay them natively ---- */
 uint8_t nondet_uint8_t(void); uint16_t nondet_uint16_t(void); uint32_t nondet_uint32_t(void); uint64_t nondet_uint64_t(void);
 real_t nondet_real(void); real32_t nondet_real32(void);
-uint8_t vf_nondet_u8(void){ uint8_t vf_r = nondet_uint8_t(); return vf_r; }
-uint32_t vf_nondet_u32(void){ uint32_t vf_r = nondet_uint32_t(); return vf_r; }
-uint64_t vf_nondet_u64(void){ uint64_t vf_r = nondet_uint64_t(); return vf_r; }
+/* VF_KEEP: a property that depends on the value and always holds, so that --slice-formula keeps
+ * every nondeterministic value in the equation and the counterexample trace stays replayable */
+#define VF_KEEP(x) __CPROVER_assert(((uint64_t)(x) | 1u) != 0, "trace-keep")
+uint8_t vf_nondet_u8(void){ uint8_t vf_r = nondet_uint8_t(); VF_KEEP(vf_r); return vf_r; }
+uint32_t vf_nondet_u32(void){ uint32_t vf_r = nondet_uint32_t(); VF_KEEP(vf_r); return vf_r; }
+uint64_t vf_nondet_u64(void){ uint64_t vf_r = nondet_uint64_t(); VF_KEEP(vf_r); return vf_r; }
 /* Reduced-precision mode (-DVF_NARROW_T=__CPROVER_floatbv[w][m]): doubles keep
  * their 8-byte storage (so the byte offsets and sizes baked into the IR stay
  * valid) but every value is representable in the narrow IEEE format and every
@@ -34,16 +37,16 @@ static inline real_t vf_fsub(real_t a, real_t b){ return (real_t)((vf_narrow_t)a
 static inline real_t vf_fmul(real_t a, real_t b){ return (real_t)((vf_narrow_t)a * (vf_narrow_t)b); }
 static inline real_t vf_fdiv(real_t a, real_t b){ return (real_t)((vf_narrow_t)a / (vf_narrow_t)b); }
 vf_narrow_t nondet_narrow(void);
-real_t vf_nondet_f64(void){ vf_narrow_t h = nondet_narrow(); real_t vf_r = (real_t)h; return vf_r; }
+real_t vf_nondet_f64(void){ vf_narrow_t h = nondet_narrow(); real_t vf_r = (real_t)h; { uint64_t vf_b; memcpy(&vf_b, &vf_r, 8); VF_KEEP(vf_b); } return vf_r; }
 #else
 static inline real_t vf_narrow(real_t x){ return x; }
 static inline real_t vf_fadd(real_t a, real_t b){ return a + b; }
 static inline real_t vf_fsub(real_t a, real_t b){ return a - b; }
 static inline real_t vf_fmul(real_t a, real_t b){ return a * b; }
 static inline real_t vf_fdiv(real_t a, real_t b){ return a / b; }
-real_t vf_nondet_f64(void){ real_t vf_r = nondet_real(); return vf_r; }
+real_t vf_nondet_f64(void){ real_t vf_r = nondet_real(); { uint64_t vf_b; memcpy(&vf_b, &vf_r, 8); VF_KEEP(vf_b); } return vf_r; }
 #endif
-real32_t vf_nondet_f32(void){ real32_t vf_r = nondet_real32(); return vf_r; }
+real32_t vf_nondet_f32(void){ real32_t vf_r = nondet_real32(); { uint32_t vf_b; memcpy(&vf_b, &vf_r, 4); VF_KEEP(vf_b); } return vf_r; }
 static inline void vf_assume(unsigned char c){ __CPROVER_assume(c); }
 static inline void vf_cut(void){ __CPROVER_assume(0); }
 static inline void vf_unreachable(void){ __CPROVER_assert(0,"unreachable reached"); __CPROVER_assume(0); }
